@@ -560,6 +560,63 @@ MCNext == UNCHANGED <<tab, want>>
     ctx.extra['named'] = ('%d name/number tables of spec/NamedVals.tla replayed into NamedValues and the INTEGER / ENUMERATED / BIT STRING '
                           'constructors that take names' % len(states))
 
+
+# ------------------------------------------------------------------------------------ REAL triples (spec/RealObj.tla)
+def real_replay(state):
+    from pyasn1 import error
+    from pyasn1.type import univ
+    out = []
+    m, b, e, want = state['m'], state['b'], state['e'], state['want']
+    try:
+        try:
+            r = univ.Real((m, b, e))
+            got = ['ok'] + [int(x) for x in tuple(r)]
+        except error.PyAsn1Error:
+            r, got = None, ['refused']
+        if got != want:
+            out.append('Real((%d, %d, %d)) -> %s, model %s' % (m, b, e, got, want))
+        if r is not None and want[0] == 'ok':
+            if r != univ.Real((want[1], want[2], want[3])) or not (r == r.clone()):
+                out.append('does not compare equal to its normal form')
+            if b == 10 and e >= 0 and (float(r) != float(m * 10 ** e) or int(r) != m * 10 ** e):
+                out.append('float/int %r/%r, model %d' % (float(r), int(r), m * 10 ** e))
+            if b == 2 and e >= 0 and float(r) != float(m * 2 ** e):
+                out.append('float %r, model %d' % (float(r), m * 2 ** e))
+    except Exception as ex:   # noqa
+        out.append('crash %s: %s' % (type(ex).__name__, ex))
+    return out
+
+
+def real_part(ctx, sc):
+    with open(sc.file('MC_real.tla'), 'w') as f:
+        f.write("---- MODULE MC_real ----\nEXTENDS RealObj\nVARIABLE want\nMCInit == Init /\\ want = Norm(m, b, e)\n"
+                "MCNext == UNCHANGED <<m, b, e, want>>\n====\n")
+    with open(sc.file('MC_real.cfg'), 'w') as f:
+        f.write('INIT MCInit\nNEXT MCNext\nINVARIANT NormKeepsTheValue\nINVARIANT NormHasNoTrailingZero\nCHECK_DEADLOCK FALSE\n')
+    dump = sc.file('real.dump')
+    r = tlc.run(sc.file('MC_real.tla'), sc.file('MC_real.cfg'), sc, dump=dump, timeout=1200)
+    ctx.add_tlc('RealObj machine (mantissa x base x exponent grid)', r)
+    if not r.ok:
+        raise core.Machinery('RealObj model run failed: %s %s\n%s' % (r.violated, r.errors[:2], r.out[-1500:]))
+    states = list(tlaval.parse_dump(open(dump).read()))
+    os.remove(dump)
+    states.sort(key=lambda s: json.dumps(s, sort_keys=True))
+    bad = 0
+    for s in states:
+        ctx.evaluations += 1
+        divs = real_replay(s)
+        if divs:
+            bad += 1
+            ctx.report('REAL triple (%d, %d, %d): %s' % (s['m'], s['b'], s['e'], '; '.join(divs[:3])),
+                       {'clause': 'RealObj', 'part': 'real'}, {'prop': 'C14', 'kind': 'real', 'state': s, 'divergences': divs})
+    ctx.traces += len(states) - bad
+    ctx.keys.add(('real', len(states)))
+    flipped = dict(next(s for s in states if s['want'][0] == 'ok'))
+    flipped['want'] = list(flipped['want'][:3]) + [flipped['want'][3] + 1]
+    if not real_replay(flipped):
+        raise core.Machinery('real replay self-test failed')
+    ctx.extra['real'] = '%d (mantissa, base, exponent) triples of spec/RealObj.tla replayed into univ.Real (normal form, refusal of other bases, ==, float, int)' % len(states)
+
 def run(ctx):
     with tlc.Scratch('c14') as sc:
         depth = 1 if ctx.quick else 2
@@ -596,6 +653,7 @@ def run(ctx):
         oid_part(ctx, sc)
         char_part(ctx, sc)
         named_part(ctx, sc)
+        real_part(ctx, sc)
     ctx.rule = ('every state of the generator machine spec/Constraint.tla: (expression tree of depth <= %d over single value, range, '
                 'size, alphabet, intersection, union, exclusion) x candidate values around every boundary; derivation chains '
                 'T0 -> c1 -> c2; value-producing operations (+ - * // %% neg abs << >> ** ; concatenation, slicing, repetition; '
